@@ -82,8 +82,10 @@ static void judge_c02(const glue::Files &files, const std::string &main, Result 
       bool ok = !e.message.empty();
       if (e.file == "-")
         ok = ok && e.line == -1;
-      else if (e.file == "__standards__")
-        ok = ok && e.line >= 1 && e.line <= count_lines(STANDARDS);
+      else if (e.file == "__standards__") {
+        auto own = files.find("__standards__");  // a caller-supplied file of that name replaces the hidden one
+        ok = ok && e.line >= 1 && e.line <= count_lines(own != files.end() ? own->second : std::string(STANDARDS));
+      }
       else {
         auto it = files.find(e.file);
         // the main file gets the hidden include directive prepended on its first line: lines are unchanged
@@ -252,6 +254,10 @@ static void prop_c02(Tape &t, Result &r) {
         case 3: files[main] = "include \"main.theo\" x0 := 1"; break;
         case 4: files[main] = "include \"a\" x0 := 1"; files["a"] = "include \"b\""; files["b"] = "include \"a\" include \"zz\""; break;
         case 5: break;  // empty map
+      }
+      if (t.chance(1, 4)) {  // a caller-supplied file with the hidden file's name
+        files["__standards__"] = t.chance(1, 2) ? gm::soup(t, true, 20) : std::string("\n\nDEFINE PRIO 7 <ID> + <INT> AS $0 END DEFINE\n");
+        if (files.count(main) && t.chance(1, 2)) files[main] += "\nx0 := x1 + 1; LOOP x1 + 1 DO x2 := x2 - 1 END";
       }
       r.cls("gen:broken-file-map");
       break;
